@@ -1061,6 +1061,16 @@ func main() {
 	run.Count("enumerated-sequences", int64(len(seqs)))
 	runBatch(full, seqs, legalPipelines())
 
+	// 1c. requests naming a session that is being closed (several connections)
+	{
+		ts := startServer(full)
+		cc := closingCases(run.Pick(3, 25))
+		run.Parallel(len(cc), func(_, i int) { runClosingCase(ts, full, cc[i]) }, func(i int, v any, stack string) {
+			run.Violation("harness-side-panic/"+vlib.PanicSite(stack), fmt.Sprint(v), cc[i])
+		})
+		ts.Close()
+	}
+
 	// 1b. every continuation of length 1..2 (thorough: 3) of each canonical deep state
 	deep := deepSequences(run.Pick(2, 3))
 	run.Count("deep-state-continuations", int64(len(deep)))
